@@ -64,6 +64,18 @@ func init() {
 					break
 				}
 			}
+			if len(in)%4 == 0 {
+				// what a signing tool does with an image it was handed: add a signature of its own to whatever is
+				// there, then look at the object again
+				id := gen.FixedIdents()[0]
+				if _, err := p.Sign(id.Priv(), id.Cert); err == nil {
+					p.Verify(gen.FixedIdents()[1].Cert)
+					p.Verify(id.Cert)
+					p.Signatures()
+					_ = p.Bytes()
+					_ = p.Hash(crypto.SHA256)
+				}
+			}
 			return stage, firstErr
 		},
 		"pkcs7": func(in []byte) (int, error) {
